@@ -763,6 +763,9 @@ func Run(r *monitor.Run) {
 	for i := 0; i < r.Pick(2, 8); i++ {
 		threeNodes(r, i)
 	}
+	for i := 0; i < r.Pick(2, 10); i++ {
+		lastUnsubscribeVsNewSubscribe(r, i)
+	}
 	scs := genScripts(r.Rand("scripts"), r.Pick(24, 200), !r.Quick())
 	npairs := 4
 	var wg sync.WaitGroup
